@@ -422,3 +422,77 @@ pub fn same_edit_scenario(name: &str, depth: usize, extra: &[Op]) -> Scenario {
         order: None,
     }
 }
+
+/// Elements that own nested flattened arrays; the two replicas concurrently move each element into the
+/// other one's nested array (containment becomes cyclic after the merge).
+pub fn mutual_move_scenario(name: &str, depth: usize, extra: &[Op]) -> Scenario {
+    let el = |id: &str, sub: Vec<Value>| json!({"_id": id, "sub♭": sub});
+    let docs = vec![
+        json!({"items♭":[el("X", vec![]), el("Y", vec![])]}),
+        json!({"items♭":[el("Y", vec![el("X", vec![])])]}),
+        json!({"items♭":[el("X", vec![el("Y", vec![])])]}),
+        json!({"items♭":[el("X", vec![]), el("Y", vec![]), el("Z", vec![])]}),
+        json!({"items♭":[el("Y", vec![]), el("X", vec![el("Z", vec![])])]}),
+    ];
+    let mut alphabet = vec![Op::Sync(0, 1), Op::Sync(1, 0), Op::Upd(0, 3), Op::Upd(1, 4), Op::Commit(0, 0), Op::Commit(1, 0), Op::Reopen(0)];
+    alphabet.extend_from_slice(extra);
+    Scenario {
+        name: name.to_string(),
+        nrep: 2,
+        menu: menu(docs),
+        prologue: vec![Op::Upd(0, 0), Op::Commit(0, 0), Op::Sync(1, 0), Op::Upd(0, 1), Op::Commit(0, 0), Op::Upd(1, 2), Op::Commit(1, 0)],
+        alphabet,
+        key_opts: KeyOpts::default(),
+        max_depth: depth,
+        track: false,
+        order: None,
+    }
+}
+
+/// One author: three commits, the last one introduces element z; after time travel back to the first
+/// commit the author re-submits z (same content: de-duplicated against the pack of the abandoned branch)
+/// together with a new value. Replica 1 and fresh replicas receive subsets of the author's items.
+pub fn travel_reuse_scenario(name: &str, depth: usize, extra: &[Op]) -> Scenario {
+    let docs = vec![
+        json!({"l♭":[x(), y()]}),
+        json!({"l♭":[x2(), y()]}),
+        json!({"l♭":[x2(), y(), z()]}),
+        json!({"l♭":[x(), y(), z()], "s":"t"}),
+        json!({"l♭":[y(), z()]}),
+    ];
+    let mut alphabet = vec![Op::Travel(0, 0), Op::Travel(0, 1), Op::Upd(0, 3), Op::Upd(0, 4), Op::Commit(0, 0), Op::Sync(1, 0), Op::Reload(0)];
+    alphabet.extend_from_slice(extra);
+    let mut sc = Scenario {
+        name: name.to_string(),
+        nrep: 2,
+        menu: menu(docs),
+        prologue: vec![Op::Upd(0, 0), Op::Commit(0, 0), Op::Sync(1, 0), Op::Upd(0, 1), Op::Commit(0, 0), Op::Upd(0, 2), Op::Commit(0, 1)],
+        alphabet,
+        key_opts: KeyOpts::default(),
+        max_depth: depth,
+        track: false,
+        order: None,
+    };
+    sc.key_opts.heads = true;
+    sc
+}
+
+/// Three replicas with a relay: replica 1 may receive replica 0's block files without their packs (plain
+/// file copy in flight) and refresh; replica 2 melds from the relay and later exchanges with replica 0.
+pub fn relay_scenario(name: &str, depth: usize, extra: &[Op]) -> Scenario {
+    let a = arr_docs();
+    let docs = vec![a[0].clone(), a[2].clone(), a[3].clone()];
+    let mut alphabet = vec![Op::Upd(0, 1), Op::Upd(0, 2), Op::Commit(0, 0), Op::CopyDeltas(1, 0), Op::Refresh(1), Op::Sync(2, 1), Op::Sync(2, 0), Op::Sync(1, 0), Op::Sync(0, 2)];
+    alphabet.extend_from_slice(extra);
+    Scenario {
+        name: name.to_string(),
+        nrep: 3,
+        menu: menu(docs),
+        prologue: vec![Op::Upd(0, 0), Op::Commit(0, 0), Op::Sync(1, 0), Op::Sync(2, 0)],
+        alphabet,
+        key_opts: KeyOpts::default(),
+        max_depth: depth,
+        track: false,
+        order: None,
+    }
+}
